@@ -224,8 +224,8 @@ Proof.
                            (if handled0 then ret tt
                             else put_session k_uid (u_pid u') ;;;
                                  handled1 <- fire E EvAfterAuth false ;;
-                                 (if handled1 then ret tt else redirect E (ro_ok p_recover_ok))))
-                else redirect E (ro_ok p_recover_ok)))).
+                                 (if handled1 then ret tt else redirect E (ro_ok (p_recover_ok_of (e_cfg E))))))
+                else redirect E (ro_ok (p_recover_ok_of (e_cfg E)))))).
     pose proof (upto_lock_lock u') as QL.
     assert (KR : forall ro, keeps_inv (u_pid u) (upto_lock u') (s_users (h_st h)) (redirect E ro))
       by (intros; apply keeps_of_pres, pres_redirect; exact _).
